@@ -24,6 +24,7 @@ import Golib.Model.C18Solv
 import Golib.Model.C18Graph
 import Golib.Model.C18GraphApi
 import Golib.Model.C18GraphR
+import Golib.Model.C18KnapH
 
 namespace Golib.C18
 open Golib.Proto
@@ -126,7 +127,16 @@ def dpOp (items : List Item) (ts : List String) : Option (Option String) :=
   | ["knap", W, b] =>
     match W.toInt?, parseBrk b with
     | some W, some br =>
-      some ((knapsackGo br (fun x => x.w) (fun x => x.v) W items).map showSel)
+      -- on small instances also run Knapsack with its real buffers (`tmp`, per-cell slices on a
+      -- heap, doubling / exact growth); `c18_knapsack_buffers` says the result is the same
+      let viaValues := knapsackGo br (fun x => x.w) (fun x => x.v) W items
+      let small := items.length ≤ 40 ∧ 0 ≤ W ∧ W ≤ 60 ∧ items.all (fun x => decide (0 ≤ x.w))
+      let viaHeap := if small then
+          knapsackH br (fun n => if items.length % 2 = 0 then n else 2 * n)
+            (fun x : Item => x.w.toNat) (fun x => x.v) W.toNat items
+        else viaValues
+      if viaHeap.map ids ≠ viaValues.map ids then some (some "model-mismatch") else
+      some (viaValues.map showSel)
     | _, _ => none
   | ["knapv", W, b] =>
     -- value only (limits far beyond what the table model can execute): the optimum by the
